@@ -28,6 +28,8 @@ import (
 
 var env *sqdb.Env
 
+var peer *locks.Peer
+
 type step struct {
 	Move string
 	Read string
@@ -45,7 +47,10 @@ type spec struct {
 var moves = []string{"begin", "begin-immediate", "begin-exclusive", "write-small", "write-small", "write-spill", "cursor-open", "cursor-close", "r2-open", "r2-close", "commit", "commit", "rollback", "nothing",
 	// another handle of THIS process parks inside a row callback (holding the
 	// process' SHARED lock, which blocks the writer's commit) / lets go
-	"own-hold", "own-release"}
+	"own-hold", "own-release",
+	// a third process write-locks the shared range without taking the PENDING
+	// byte first (what SQLite's unix-excl VFS does) / lets go
+	"raw-lock", "raw-unlock"}
 var reads = []string{"select", "select", "rowid", "indexed", "pk", "columns", "low-scan", "open-select"}
 
 func TestC07LockStates(t *testing.T) {
@@ -56,8 +61,11 @@ func TestC07LockStates(t *testing.T) {
 			if env, err = sqdb.NewEnv(); err != nil {
 				r.Harness(t, "env: %v", err)
 			}
+			if peer, err = locks.StartPeer(); err != nil {
+				r.Harness(t, "peer: %v", err)
+			}
 		},
-		Teardown: func() { env.Close() },
+		Teardown: func() { peer.Stop(); env.Close() },
 		Gen: func(t *rapid.T) spec {
 			s := spec{PageSize: rapid.SampledFrom([]int{512, 1024, 4096}).Draw(t, "ps"), SyncOff: rapid.IntRange(0, 2).Draw(t, "syncoff") == 0}
 			n := rapid.IntRange(2, 14).Draw(t, "nsteps")
@@ -139,6 +147,12 @@ func run(r *vt.Run, t vt.TB, s spec) {
 		}
 	}
 	defer releaseOwn()
+	rawHeld := false
+	defer func() {
+		if rawHeld {
+			peer.Call("rawunlock", "")
+		}
+	}()
 
 	// model of the writer
 	inTxn, wrote, spilled, cursorW, cursorR2, pendingFail := false, false, false, false, false, false
@@ -243,7 +257,11 @@ func run(r *vt.Run, t vt.TB, s spec) {
 				case err == nil:
 					inTxn, wrote, spilled, pendingFail = false, false, false, false
 					level = "UNLOCKED"
-					committed = snapshot()
+					if !rawHeld {
+						// (under the third process' write lock only a transaction
+						// that wrote nothing can have committed)
+						committed = snapshot()
+					}
 				case busy(err):
 					// a reader blocks the commit: SQLite keeps the PENDING lock
 					pendingFail = true
@@ -277,6 +295,20 @@ func run(r *vt.Run, t vt.TB, s spec) {
 			}
 		case "own-release":
 			releaseOwn()
+		case "raw-lock":
+			if !rawHeld {
+				if pr, err := peer.Call("rawlock", path); err != nil {
+					r.Harness(t, "peer: %v", err)
+				} else if pr.Held {
+					rawHeld = true
+					classes["state:shared-range-write-locked-without-pending"] = true
+				}
+			}
+		case "raw-unlock":
+			if rawHeld {
+				peer.Call("rawunlock", "")
+				rawHeld = false
+			}
 		case "rollback":
 			if inTxn {
 				if cursorW {
@@ -297,7 +329,7 @@ func run(r *vt.Run, t vt.TB, s spec) {
 		if err != nil {
 			r.Harness(t, "probe: %v", err)
 		}
-		if obs.Pending.Pid != 0 && obs.Pending.Pid != env.O.Pid || obs.Shared.Pid != 0 && obs.Shared.Pid != env.O.Pid {
+		if obs.Pending.Pid != 0 && obs.Pending.Pid != env.O.Pid || obs.Shared.Pid != 0 && obs.Shared.Pid != env.O.Pid && !(rawHeld && obs.Shared.Pid == peer.Pid) {
 			r.Harness(t, "locks held by an unexpected process: %s (oracle pid %d)", obs, env.O.Pid)
 		}
 		seen := obs.SQLiteLevel()
@@ -308,7 +340,7 @@ func run(r *vt.Run, t vt.TB, s spec) {
 			return
 		}
 		// cross-check with the model where the model is definite
-		if !inTxn && !cursorW && !cursorR2 && seen != "UNLOCKED" {
+		if !inTxn && !cursorW && !cursorR2 && !rawHeld && seen != "UNLOCKED" {
 			r.Harness(t, "model says nothing is locked, probe sees %s (%s) after %v", seen, obs, history)
 		}
 		if spilled && seen != "EXCLUSIVE" && seen != "PENDING" {
